@@ -21,6 +21,7 @@ TRUSTED = ["z3 5.1 QF_UFBV", "fixedint model (validated each run)", "CPython ren
 ASSUMPTIONS = [
     "programs and bounds of C02 (K = 2L+2); states inspected per path: the initial state, the state after the first step, every 3rd state (quick; thorough: every state for one-instruction programs, every 2nd for L=2) and the final state",
     "with a symbolic (total) data memory the data-memory table getter cannot enumerate keys; it is exercised in the 'small' harness (initially empty real dict memory, store/load addresses constrained to 8 bytes at the start of the data segment)",
+    "register numbers of the programs are pinned to a dependency chain (x(10+i) <- x(9+i), x9); immediates, register and memory contents stay symbolic",
     "initial register values are constrained to [0, 2^31) (the register table branches on the sign of each of the 32 registers; the formatter is C17's subject); computed values are unconstrained",
     "timer fields excluded from snapshots; get_performance_metrics_str is deterministic while the timer is not running (stepping)",
 ]
@@ -123,6 +124,13 @@ def h_inspect(e, mnems, mode, cfg=None, stride=3):
     if any(m == "ecall" for m in mnems) and e.mode == "sym":
         e.site_bounds["process_ecall"] = progs.ECALL_SITE_BOUND
     items, fields = progs.build_program(e, mnems)
+    # register numbers are pinned (a dependency chain: instruction i writes x(10+i) and reads
+    # x(9+i), x9): with symbolic indices the 32-row register table forks on the sign of every
+    # row for every possible destination
+    for i, f in enumerate(fields):
+        for name, v in (("rd", 10 + i), ("rs1", 9 + i), ("rs2", 9)):
+            if name in f:
+                e.assume(cond("==", f[name], v))
     dc, ic = mk_caches(cfg)
     c = mk_riscv(e, mode=mode, dcache=dc, icache=ic)
     place_instructions(e, c, items)
